@@ -1,7 +1,7 @@
-\* exhaustive: one matching/non-matching view with EVERY shape (name x description x aggregation x
+\* exhaustive: one matching / non-matching view with EVERY shape (name x description x aggregation x
 \* attribute filter) x every instrument type x every attribute-key set
 CONSTANTS
-  TypeSet <- TypesAll   PatSet <- Pats3   UnitSelSet <- UnitSel2   MSelSet <- MSelAny   ShapeSet <- ShapesAll
+  TypeSet <- TypesAll   PatSet <- Pats2   UnitSelSet <- UnitSelAny   MSelSet <- MSelAny   ShapeSet <- ShapesAll
   INameSet <- IName1   IUnitSet <- IUnit1   MeterSet <- Meter1   AttrSet <- AttrsAll
   MaxViews = 1  MaxInst = 1  Hist = FALSE
 INIT Init
